@@ -1,6 +1,6 @@
 --------------------------- MODULE TracePipeline ---------------------------
 (* Trace validation of real CLI task sequences against Pipeline.tla.                     *)
-(* ndjson: {"e":"config","kind":..,"numeric":bool,"batches":..,"order":n}                 *)
+(* ndjson: {"e":"config","kind":..,"numeric":bool,"batches":..,"order":n,"chars":[c,..]}   *)
 (*         {"e":"task","task":name,"out":[known artefacts present afterwards],           *)
 (*          "ckpt":bool (checkpoint file present afterwards),"crashed":bool}              *)
 EXTENDS Pipeline, Json, IOUtils
@@ -8,15 +8,19 @@ VARIABLE l
 Trace == ndJsonDeserialize(IOEnv.TRACE_FILE)
 Known == {"pairwise_ranks.tsv", "memory.tsv", "value_repetitions.json", "combination_estimation_counts.json", "timings.json", "arguments.json",
           "3mr_ranks.tsv", "numeric_feature_statistics.tsv", "feature_singles.tsv", "feature_singles_transformers_only_imp.tsv",
-          "feature_singles_aggregated.tsv", "rare_values.tsv", "feature_sparsity_summary.tsv"}
+          "feature_singles_aggregated.tsv", "rare_values.tsv", "feature_sparsity_summary.tsv"} \cup VisArtefacts
 TInit == /\ l = 2 /\ Trace[1].e = "config"
-         /\ cfg = [kind |-> Trace[1].kind, numeric |-> Trace[1].numeric, batches |-> Trace[1].batches, order |-> Trace[1].order]
+         /\ cfg = [kind |-> Trace[1].kind, numeric |-> Trace[1].numeric, batches |-> Trace[1].batches, order |-> Trace[1].order,
+                chars |-> {Trace[1].chars[i] : i \in DOMAIN Trace[1].chars}]
          /\ data = FALSE /\ out = {} /\ ckpt = FALSE /\ log = <<>> /\ crashed = FALSE
 Act(name) == CASE name = "data_generator" -> Generate [] name = "ranking" -> Ranking [] name = "identify_rare_values" -> RareValues
-               [] name = "feature_summary_transformers" -> TransformerHints [] name = "ranking_summary" -> Summary [] OTHER -> FALSE
+               [] name = "feature_summary_transformers" -> TransformerHints [] name = "ranking_summary" -> Summary
+               [] name = "visualization" -> Visualize [] name = "all" -> All [] name = "instance_ranking" -> InstanceRanking [] OTHER -> FALSE
 TNext == /\ l <= Len(Trace) /\ Trace[l].e = "task"
          /\ Act(Trace[l].task)
-         /\ out' \cap Known = {Trace[l].out[i] : i \in DOMAIN Trace[l].out}
+         /\ LET seen == {Trace[l].out[i] : i \in DOMAIN Trace[l].out} IN
+            /\ out' \cap Known = seen \cap Known
+            /\ {x \in out' : x \notin Known} = {x \in seen : x \notin Known}          \* the instance-ranking plot families
          /\ ckpt' = Trace[l].ckpt
          /\ crashed' = Trace[l].crashed
          /\ l' = l + 1
